@@ -710,8 +710,15 @@ func parseVerbatim(t *Tree, start Pos) (Node, error) {
 	if _, err := t.expect(tokenTagClose); err != nil {
 		return nil, err
 	}
+	// The body is a run of text: it is positioned at its first byte (an empty
+	// one at the tag).
+	pos, empty := start, true
 	for {
-		switch tok := t.peek(); tok.tokenType {
+		tok := t.peek()
+		if empty && tok.tokenType != tokenEOF && tok.tokenType != tokenError {
+			pos = tok.Pos
+		}
+		switch tok.tokenType {
 		case tokenEOF:
 			return nil, newUnexpectedEOFError(tok)
 		case tokenError:
@@ -724,8 +731,12 @@ func parseVerbatim(t *Tree, start Pos) (Node, error) {
 				if _, err := t.expect(tokenTagClose); err != nil {
 					return nil, err
 				}
-				return NewTextNode(body.String(), start), nil
+				if empty {
+					pos = start
+				}
+				return NewTextNode(body.String(), pos), nil
 			}
+			empty = false
 			// Not the end tag: everything read so far is part of the body.
 			if tok.tokenType == tokenEOF || tok.tokenType == tokenError {
 				t.backup()
@@ -737,6 +748,7 @@ func parseVerbatim(t *Tree, start Pos) (Node, error) {
 		default:
 			tok := t.next()
 			body.WriteString(tok.value)
+			empty = false
 		}
 	}
 }
